@@ -32,7 +32,7 @@ TRUSTED_BASE = [
     "Coq standard library only (QArith, Qcanon, List, Permutation, String, Lia, Lqa/Psatz, ZArith)",
     "hand-written Gallina model of lymph (coq/theories): theorems are about the model",
     "correspondence harness (harness/*.py): generators, Coq term printer/parser, tolerance 1e-9, exception-to-enum map",
-    "source translator harness/translate.py (Python ast -> Gallina, fail-closed) for comp_transition_tensor, compute_confusion_matrix and compute_encoding's element_map (C02, C05, C06, C14)",
+    "source translator harness/translate.py + translate2.py (Python ast -> Gallina, fail-closed): comp_transition_tensor, compute_confusion_matrix, compute_encoding (element_map and main loop), generate_observation, get_state_idx_matrix, tile_and_repeat, row_wise_kron, LymphNodeLevel.comp_trans_prob / comp_bayes_net_prob, AbstractNode.comp_obs_prob, Unilateral.transition_prob; its reading of numpy primitives (coq/theories/Numpy.v) and of attribute accesses on lymph objects (C02, C05, C06, C07, C08, C14)",
     "not modelled: IEEE rounding / BLAS summation order, pandas internals, Python hash(), numpy bit generator",
 ]
 
@@ -626,7 +626,12 @@ def part_a(ctx: Ctx) -> bool:
 # --------------------------------------------------------------------------
 # part T: the table-like core re-translated from the source on every run (harness/translate.py)
 # --------------------------------------------------------------------------
-TRANSLATOR_TIE = {"C05": ["tensor"], "C14": ["tensor"], "C06": ["confusion", "observation"], "C02": ["element"]}
+TRANSLATOR_TIE = {"C05": ["tensor", "state_idx", "comp_trans_prob", "transition_prob"],
+                  "C14": ["tensor", "state_idx"],
+                  "C06": ["confusion", "observation", "row_wise_kron", "comp_obs_prob"],
+                  "C02": ["element", "compute_encoding", "tile_and_repeat"],
+                  "C08": ["compute_encoding", "tile_and_repeat"],
+                  "C07": ["comp_bayes_net_prob"]}
 # advisory pieces: loop nests that a maintainer may well rewrite without changing behaviour (one of the stored harmless
 # refactorings does).  Their obligation is generated, checked and recorded on every run, but when it breaks the
 # correspondence alone decides (no violation is raised for the broken obligation itself).
@@ -637,18 +642,19 @@ def translator_tie(ctx: "Ctx") -> None:
     """Regenerate Gallina definitions from the current Python source and have Coq prove them equal to the model for all
     arguments.  A broken obligation (untranslatable source, or the equality no longer provable) is reported as a
     violation ending in no-failing-input-found unless the correspondence of this run already produced a failing input."""
-    from . import translate
+    from . import translate, translate2
     pieces = TRANSLATOR_TIE.get(ctx.pid, [])
     if not pieces:
         return
     results = []
     ctx.work.mkdir(parents=True, exist_ok=True)
     for piece in pieces:
-        _, lemma, where = translate.PIECES[piece]
+        mod = translate if piece in translate.PIECES else translate2
+        _, lemma, where = mod.PIECES[piece]
         rec = {"piece": piece, "source": where, "lemma": lemma, "ok": False, "advisory": piece in ADVISORY_PIECES}
         try:
-            text = translate.generate(piece)
-        except translate.Untranslatable as e:
+            text = mod.generate(piece)
+        except translate.Untranslatable as e:  # translate2 raises the same class
             rec["reason"] = f"source not in the translatable fragment: {e}"
         except (SyntaxError, OSError) as e:
             rec["reason"] = f"source unreadable: {e!r}"
